@@ -248,18 +248,19 @@ Definition img_rel (f' : file) (g : jfile) : Prop :=
 
 Record image_facts (z : sys2) (d' : disk) (G Gd : list jfile) : Prop := {
   if_ji : JI z G;
-  if_sub : exists A C, G = A ++ Gd ++ C;
+  if_sub : exists A C, G = A ++ Gd ++ C /\ map fst C = creates (z_todo z);
   if_ids : map fst Gd = map f_id (z_disk z);
   if_pre : Forall2 (fun f g => f_id f = fst g /\ bprefix (f_data f) (encs (snd g))) (z_disk z) Gd;
   if_img : Forall2 img_rel d' Gd }.
 
-Lemma image_analysis cfg z d' : zreach cfg z -> hist_wf z -> crash_image z d' ->
-  exists G Gd, image_facts z d' G Gd.
+Lemma image_analysis cfg z d' G : zreach cfg z -> JI z G -> crash_image z d' ->
+  exists Gd, image_facts z d' G Gd.
 Proof.
-  intros Hr Hw Hc. destruct (L2_journal cfg z Hr Hw) as [G J].
-  pose proof (PurgeFacts.C08_oldest_first cfg z Hr) as (gone & later & Hcr).
+  intros Hr J Hc.
+  destruct (PurgeFacts.zreach_Inv cfg z Hr) as (gone & rmw & keep & Hci).
+  pose proof (PurgeFacts.ci_created _ _ _ _ Hci) as Hcr. unfold JournalDisk.ids in Hcr.
   pose proof (gi_ids _ _ _ _ (ji_gi _ _ J)) as Hi. rewrite Hcr, <- !app_assoc in Hi.
-  apply map_split3 in Hi. destruct Hi as (A & Gd & C & EG & _ & Hd & _).
+  apply map_split3 in Hi. destruct Hi as (A & Gd & C & EG & _ & Hd & HC).
   pose proof (gi_sorted _ _ _ _ (ji_gi _ _ J)) as Hs.
   pose proof (gi_ok _ _ _ _ (ji_gi _ _ J)) as Hok.
   assert (Hsd : disk_sorted (z_disk z)) by (apply AD.b_sorted, AD.f_b; eapply full_reach; eauto).
@@ -273,7 +274,7 @@ Proof.
     eapply bprefix_trans; [apply bprefix_app|]. apply H. apply in_or_app. left.
     rewrite <- Eid. now apply in_map. }
   cut (Forall2 img_rel d' Gd).
-  { intros Himg. exists G, Gd. constructor; [exact J|eauto|exact Hd|exact Hpre|exact Himg]. }
+  { intros Himg. exists Gd. constructor; [exact J|eauto|exact Hd|exact Hpre|exact Himg]. }
   assert (Hokd : Forall gfile_ok Gd).
   { rewrite EG, !Forall_app in Hok. tauto. }
   assert (Hpre' : Forall2 (fun f g => (f_id f = fst g /\ bprefix (f_data f) (encs (snd g))) /\ gfile_ok g)
@@ -357,9 +358,9 @@ Proof.
   apply JournalDisk.ss_app_inv in H. tauto.
 Qed.
 
-Lemma crash_open cfg cfg' z d' : zreach cfg z -> hist_wf z -> crash_image z d' ->
+Lemma crash_open cfg cfg' z d' G : zreach cfg z -> JI z G -> crash_image z d' ->
   ~ gap_class d' -> c_truncate cfg' = true -> d' <> [] ->
-  exists G Gd Go o recs j older' nf' tl y' s1,
+  exists Gd Go o recs j older' nf' tl y' s1,
     image_facts z d' G Gd /\ Gd = Go ++ [(o, recs)] /\
     d' = older' ++ [nf'] /\ Forall2 RF.file_match older' Go /\ f_id nf' = o /\
     f_data nf' = encs (firstn j recs) ++ tl /\ tail_shape tl /\
@@ -367,9 +368,9 @@ Lemma crash_open cfg cfg' z d' : zreach cfg z -> hist_wf z -> crash_image z d' -
     RS.replay_files (sm_new cfg') (Go ++ [(o, firstn j recs)]) = (s1, None) /\
     m_rs (k_sm (y_core y')) = m_rs s1 /\ m_log (k_sm (y_core y')) = m_log s1.
 Proof.
-  intros Hr Hw Hc Hng Ht Hne.
-  destruct (image_analysis cfg z d' Hr Hw Hc) as (G & Gd & IF).
-  pose proof IF as [J (A & C & EG) Hids Hpre Himg].
+  intros Hr J0 Hc Hng Ht Hne.
+  destruct (image_analysis cfg z d' G Hr J0 Hc) as (Gd & IF).
+  pose proof IF as [J (A & C & EG & _) Hids Hpre Himg].
   destruct (exists_last Hne) as (older' & nf' & Ed). subst d'.
   assert (HGd : Gd <> []).
   { intros ->. apply Forall2_length in Himg. rewrite app_length in Himg. simpl in Himg. lia. }
@@ -415,7 +416,7 @@ Proof.
   { rewrite (RF.sm_pre_chunk_pre a') by (rewrite Hlast, Hsm; reflexivity). rewrite Hsm. exact Hs1. }
   destruct (C10_longest_prefix_open cfg' older' o nsyn (firstn j recs) tl a' Ho Hidlt Hgap' Hwj Htl s1
               (or_introl Ht) Hrep1) as (y' & Hopen & Hrs & Hlog & _).
-  exists G, (Go ++ [(o, recs)]), Go, o, recs, j, older', (mkFile o (encs (firstn j recs) ++ tl) nsyn), tl, y', s1.
+  exists (Go ++ [(o, recs)]), Go, o, recs, j, older', (mkFile o (encs (firstn j recs) ++ tl) nsyn), tl, y', s1.
   split; [exact IF|]. split; [reflexivity|]. split; [reflexivity|]. split; [exact Hfm|].
   split; [reflexivity|]. split; [reflexivity|]. split; [exact Htl|]. split; [exact Hopen|].
   split; [|split; assumption].
@@ -457,8 +458,9 @@ Proof.
   { destruct d' as [|f0 l0] eqn:Ed.
     - eexists. reflexivity.
     - rewrite <- Ed in *.
-      destruct (crash_open cfg cfg' z d' Hr Hw Hc Hng Ht) as
-        (G & Gd & Go & o & recs & j & older' & nf' & tl & y' & s1 & _ & _ & _ & _ & _ & _ & _ & Ho & _).
+      destruct (L2_journal cfg z Hr Hw) as [G J].
+      destruct (crash_open cfg cfg' z d' G Hr J Hc Hng Ht) as
+        (Gd & Go & o & recs & j & older' & nf' & tl & y' & s1 & _ & _ & _ & _ & _ & _ & _ & Ho & _).
       + rewrite Ed. discriminate.
       + eauto. }
   destruct Hex as [y' Ho]. exists y'. split; [exact Ho|].
